@@ -498,13 +498,18 @@ def run_netlist(seed, policy, out, cfg, only=None):
                                            'without it (%d vs %d elements)' % (len(verdicts[0]), len(verdicts[1])), fn, ri, q, pk, None)
                                 nwant = sum(1 for e in U if any(matches(value_of(e, key), p, is_case, is_re, False) for p in pats))
                                 if len(U) >= 2 and 0 < nwant < len(U):
-                                    out['hashes'].append(hashlib.sha1(repr((seed, policy, fn, rk, sel, rec, key, pk, is_case, is_re)).encode()).hexdigest()[:11])
+                                    out['hashes'].append(hashlib.sha1(repr((seed, policy, fn, rk, key, pk)).encode()).hexdigest()[:11])
                                 if r.random() < 0.1:
                                     q = {'selection': sel, 'recursive': rec, 'patterns': pats, 'key': key, 'is_case': is_case, 'is_re': is_re, 'lookup': True}
                                     out['evaluations'] += 1
                                     res, _ = judge(fn, root, q, U, flt_idx=1)
                                     if res:
                                         report(res[0], res[1], res[2], fn, ri, q, pk, 1)
+    try:        # harness hygiene: the namespace manager would keep this netlist alive for ever
+        for o in irlib.closure([n]):
+            NM.namespaces.pop(o, None)
+    except Exception:
+        pass
     if len(out['samples']) < 2:
         out['samples'].append({'seed': seed, 'policy': policy, 'libraries': [l.name for l in n.libraries],
                                'definitions': [d.name for l in n.libraries for d in l.definitions], 'roots': len(roots)})
